@@ -68,6 +68,7 @@ func NewWithOptions(opts *Options) *OrefaFS {
 
 	vfs.nodes = make(nodes)
 	vfs.nodes[volumeName] = &node{
+		isDir: true,
 		mode:  fs.ModeDir | 0o755,
 		mtime: time.Now().UnixNano(),
 		uid:   0,
